@@ -203,7 +203,7 @@ class Partial(Generic[T], config.Buildable[T]):
   # NOTE(b/201159339): We currently need to repeat this annotation for pytype.
   __fn_or_cls__: TypeOrCallableProducingT[T]
 
-  def __build__(self, *args, **kwargs):
+  def __build__(self, /, *args, **kwargs):
     """Builds this ``Partial`` for the given ``args`` and ``kwargs``.
 
     This method is called during ``build`` to get the output for this
@@ -260,7 +260,7 @@ class ArgFactory(Generic[T], config.Buildable[T]):
   # NOTE(b/201159339): We currently need to repeat this annotation for pytype.
   __fn_or_cls__: TypeOrCallableProducingT[T]
 
-  def __build__(self, *args, **kwargs):
+  def __build__(self, /, *args, **kwargs):
     if args or kwargs:
       return _BuiltArgFactory(_build_partial(self.__fn_or_cls__, args, kwargs))
     else:
